@@ -4,12 +4,16 @@ import Hannibal.Driver.Monitors
 import Hannibal.Driver.Spawn18
 import Hannibal.Driver.Types19
 import Hannibal.Driver.Reg08
+import Hannibal.Driver.Sys16
 import Hannibal.Generated.Wiring
 open Hannibal Hannibal.Driver
 
 def reprLabel (l : Label) : String := (toString (repr l)).replace "\n" " "
 
 def processCase (mode : String) (pid : String) (header : String) (lines : List String) : IO Unit := do
+  if mode == "sys16" then
+    IO.println (processSys Wiring.current header lines (pid == "witness"))
+    return ()
   if mode == "reg08" then
     IO.println (processReg Wiring.current header lines (pid == "witness"))
     return ()
